@@ -230,7 +230,7 @@ def space_g(tier: str):
                 e["shared_objects"] = True
                 yield e, rows
     for df in INTEGRAL:
-        for g, i in (("Maximum", "Minimum"), ("AlgebraicSum", "AlgebraicProduct"), ("Maximum", "Maximum")):
+        for g, i in (("Maximum", "Minimum"), ("AlgebraicSum", "AlgebraicProduct"), ("Maximum", "EinsteinProduct")):
             o1 = R.out_var("o1", 0.0, 1.0, aggregation=g, defuzzifier=(df, 16))
             o2 = R.out_var("o2", -1.0, 3.0, aggregation=g, defuzzifier=(df, 16))
             e = R.engine("G", [R.in_var("x"), R.in_var("y")], [o1, o2], [R.block("rb", rules, "Minimum", g, i)])
